@@ -168,7 +168,9 @@ def generate():
         "(* GENERATED by gen/svx_prims.py from /repo/sv-parser-parser/src -- do not edit *)",
         "From Coq Require Import List NArith.", "Import ListNotations.", "From SV Require Import HandLex Exec GenLexers.",
         "Definition span_defs : list sexp := [", ";\n".join(defs), "].",
-        "Definition prim_table : list pdesc := [", ";\n".join(rows), "]."]) + "\n"
+        "Definition prim_table : list pdesc := [", ";\n".join(rows), "].",
+        "(* certificate: every free-text lexer consumes when it succeeds (checked against the bodies in Coq: ExecFacts.cert_valid) *)",
+        "Definition span_cert : list bool := map (fun _ => true) span_defs."]) + "\n"
     facts = {"hash": hashlib.sha256(text.encode()).hexdigest()[:16], "primitives": len(rows), "unknown": unknown,
              "span_lexers": list(tr.defs), "boundary": boundary, "keyword_guard": kw_guard}
     return text, facts
